@@ -131,6 +131,18 @@ def _i3_idgen(run: Run) -> None:
     from ..flow import CFG
     cfg = CFG(fn)
     stores = [n for n in cfg.stmt_nodes() if isinstance(n.ast, ast.Assign) and any(isinstance(t, ast.Subscript) and dotted(t.value) == "_ids" for t in n.ast.targets)]
+    # the counter table is one object for the whole process: not per thread, not per context
+    run.ob("I3", "counters-process-wide")
+    for x in ast.walk(m.tree):
+        d = dotted(x) if isinstance(x, (ast.Attribute, ast.Name)) else None
+        if d in ("threading.local", "local", "contextvars.ContextVar", "ContextVar", "_thread._local") and not (isinstance(x, ast.Name) and isinstance(x.ctx, ast.Store)):
+            bound = d in ("threading.local", "contextvars.ContextVar", "_thread._local") or any(
+                isinstance(i, ast.ImportFrom) and i.module in ("threading", "contextvars") and any((a.asname or a.name) == d for a in i.names) for i in ast.walk(m.tree))
+            if bound:
+                run.violate("I3", f"{IDGEN}:per-thread-counters", m, x,
+                            f"the id generator keeps its counters in `{d}` storage: every thread (context) starts again at 1, so names such as QTY1 are generated twice "
+                            f"and objects that compare by name (symbols, quantities and their entries in the unit system) collide")
+                return
     run.require(len(stores) >= 1, "next_id no longer stores into _ids")
     for st in stores:
         run.ob("I3", "next_id:+1")
